@@ -95,6 +95,30 @@ func init() {
 			return c.Ite(isUpper, c.Bin(OpAdd, b, c.BV(32, 8)), b)
 		}, true)
 	}
+	// strconv.Itoa for values the solver shows to be one decimal digit; otherwise interpreted
+	models["strconv.Itoa"] = func(it *Interp, fr *frame, args []Value, fn *ssa.Function) Value {
+		c := it.ctx
+		x := args[0].(*Term)
+		if x.IsConst() {
+			return it.strVal(fmt.Sprint(x.Sint()))
+		}
+		if c.ub(x) < 10 {
+			o := it.newVecObj(1)
+			o.cells[0] = c.Bin(OpAdd, c.Extract(x, 7, 0), c.BV('0', 8))
+			return Bytes{Obj: o, Off: c.Int(0), Len: c.Int(1), Cap: c.Int(1), Str: true}
+		}
+		p := it.prog.ImportedPackage("strconv")
+		return it.callSSABody(fr, p.Func("Itoa"), args)
+	}
+	models["strings.TrimRight"] = func(it *Interp, fr *frame, args []Value, fn *ssa.Function) Value {
+		return it.trimModel(args[0].(Bytes), args[1].(Bytes), false, true)
+	}
+	models["strings.TrimLeft"] = func(it *Interp, fr *frame, args []Value, fn *ssa.Function) Value {
+		return it.trimModel(args[0].(Bytes), args[1].(Bytes), true, false)
+	}
+	models["strings.Trim"] = func(it *Interp, fr *frame, args []Value, fn *ssa.Function) Value {
+		return it.trimModel(args[0].(Bytes), args[1].(Bytes), true, true)
+	}
 	models["unicode.IsPrint"] = func(it *Interp, fr *frame, args []Value, fn *ssa.Function) Value {
 		c := it.ctx
 		r := args[0].(*Term) // rune, 32 bit
@@ -338,6 +362,42 @@ func (it *Interp) bufRest(b Bytes, off *Term) Bytes {
 	return Bytes{Obj: b.Obj, Off: c.Bin(OpAdd, b.Off, off), Len: c.Bin(OpSub, b.Len, off), Cap: c.Bin(OpSub, b.Cap, off)}
 }
 
+// trimModel: strings.Trim{Left,Right,} with a one-byte ASCII cutset on a string of concrete
+// length: the result is a window with symbolic offset/length (no forking).
+func (it *Interp) trimModel(s, cutset Bytes, left, right bool) Value {
+	c := it.ctx
+	cs, ok := it.concreteString(cutset)
+	if !ok || len(cs) != 1 || cs[0] >= 0x80 || !s.Len.IsConst() || s.Len.k > 256 {
+		unsupported("Trim with cutset %q / symbolic length", cs)
+	}
+	n := int(s.Len.k)
+	if n == 0 {
+		return s
+	}
+	ch := c.BV(uint64(cs[0]), 8)
+	// end = index after the last byte != ch ; start = index of first byte != ch (or n)
+	end := c.Int(0)
+	start := c.Int(int64(n))
+	for i := 0; i < n; i++ {
+		ne := c.Not(c.Eq(it.bytesAt(s, c.Int(int64(i))), ch))
+		end = c.Ite(ne, c.Int(int64(i+1)), end)
+	}
+	for i := n - 1; i >= 0; i-- {
+		ne := c.Not(c.Eq(it.bytesAt(s, c.Int(int64(i))), ch))
+		start = c.Ite(ne, c.Int(int64(i)), start)
+	}
+	lo, hi := c.Int(0), s.Len
+	if right {
+		hi = end
+	}
+	if left {
+		// all-cutset string: empty result
+		lo = c.Ite(c.Bin(OpUlt, start, hi), start, hi)
+	}
+	ln := c.Bin(OpSub, hi, lo)
+	return Bytes{Obj: s.Obj, Off: c.Bin(OpAdd, s.Off, lo), Len: ln, Cap: ln, Str: s.Str}
+}
+
 // mapBytes applies f to every byte; needs a concrete length.
 func (it *Interp) mapBytes(b Bytes, f func(*Term) *Term, str bool) Bytes {
 	c := it.ctx
@@ -367,7 +427,7 @@ func (it *Interp) opaqueString() Bytes {
 	}
 	it.nOpaque++
 	ln := c.Var(fmt.Sprintf("opq%d", it.nOpaque), 64)
-	it.assertPC(c.Bin(OpUlt, ln, c.Int(1<<20)))
+	it.constrain(c.Bin(OpUlt, ln, c.Int(1<<20)), ln, 0)
 	o.capT = ln
 	return Bytes{Obj: o, Off: c.Int(0), Len: ln, Cap: ln, Str: true}
 }
@@ -635,6 +695,48 @@ func modelEqualFold(it *Interp, fr *frame, args []Value, fn *ssa.Function) Value
 	return it.bytesEq(fa, fb)
 }
 
+// freshBool returns an unconstrained boolean (a nondeterministic choice of a stub).
+func (it *Interp) freshBool(tag string) *Term {
+	t := it.ctx.Var(fmt.Sprintf("nd%d_%s", it.nInputs, tag), 0)
+	it.nInputs++
+	return t
+}
+
+func init() {
+	// mrz.ParseName over-approximated: may fail or succeed (used by the soundness harness, where
+	// the name field is irrelevant and strings.Split over a symbolic field would explode)
+	namedStubs["mrz.ParseName:nondet"] = func(it *Interp) {
+		it.cfg.stubs["github.com/gmrtd/gmrtd/mrz.ParseName"] = func(it *Interp, fr *frame, args []Value, fn *ssa.Function) Value {
+			if it.branch(it.freshBool("parsename_fails")) {
+				return Tuple{Ptr{}, it.newError("ParseName (stub)", nil)}
+			}
+			slot := new(Value)
+			*slot = Struct{it.strVal("X"), it.strVal("")}
+			return Tuple{Ptr{slot}, Iface{}}
+		}
+	}
+}
+
+func init() {
+	// (*SecurityInfos).Contains with an arbitrary verdict; the harness reads it back
+	namedStubs["document.Contains:nondet"] = func(it *Interp) {
+		it.cfg.stubs["(*github.com/gmrtd/gmrtd/document.SecurityInfos).Contains"] = func(it *Interp, fr *frame, args []Value, fn *ssa.Function) Value {
+			if it.branch(it.freshBool("contains_fails")) {
+				it.notes["containsOK"] = it.ctx.False
+				return it.newError("Contains (stub)", nil)
+			}
+			it.notes["containsOK"] = it.ctx.True
+			return Iface{}
+		}
+	}
+	intrinsics["verifStubContainsOK"] = func(it *Interp, fr *frame, args []Value, fn *ssa.Function) Value {
+		if v, ok := it.notes["containsOK"]; ok {
+			return v
+		}
+		return it.ctx.False
+	}
+}
+
 // ---------------------------------------------------------------------------------------------
 // intrinsics
 
@@ -660,7 +762,11 @@ func init() {
 		t := it.newInput("int", 64)
 		it.inputs = append(it.inputs, Input{Kind: "int", Terms: []*Term{t}})
 		lo, hi := args[0].(*Term), args[1].(*Term)
-		it.assertPC(c.And(c.Bin(OpSle, lo, t), c.Bin(OpSle, t, hi)))
+		def := uint64(0)
+		if lo.IsConst() {
+			def = lo.k
+		}
+		it.constrain(c.And(c.Bin(OpSle, lo, t), c.Bin(OpSle, t, hi)), t, def)
 		return t
 	}
 	intrinsics["verifBytes"] = func(it *Interp, fr *frame, args []Value, fn *ssa.Function) Value {
@@ -687,7 +793,7 @@ func init() {
 			in.Terms = append(in.Terms, o.cells[i])
 		}
 		it.inputs = append(it.inputs, in)
-		it.assertPC(c.Bin(OpUle, ln, c.Int(int64(n))))
+		it.constrain(c.Bin(OpUle, ln, c.Int(int64(n))), ln, 0)
 		return Bytes{Obj: o, Off: c.Int(0), Len: ln, Cap: ln}
 	}
 	intrinsics["verifBlob"] = func(it *Interp, fr *frame, args []Value, fn *ssa.Function) Value {
@@ -696,7 +802,7 @@ func init() {
 		name := fmt.Sprintf("blob%d", it.nInputs)
 		ln := it.newInput("len", 64)
 		it.inputs = append(it.inputs, Input{Kind: "blob", LenT: ln, Name: name, Max: mx})
-		it.assertPC(c.Bin(OpUle, ln, c.Int(int64(mx))))
+		it.constrain(c.Bin(OpUle, ln, c.Int(int64(mx))), ln, 0)
 		o := &ByteObj{capT: ln}
 		o.fn = func(i *Term) *Term { return c.UF(name, 8, i) }
 		return Bytes{Obj: o, Off: c.Int(0), Len: ln, Cap: ln}
@@ -772,7 +878,7 @@ func init() {
 	}
 }
 
-// checkAssert: query pc ∧ ¬cond; a model is a counterexample.
+// checkAssert: decide pc ∧ ¬cond; a model is a counterexample.
 func (it *Interp) checkAssert(cond *Term, label string) {
 	c := it.ctx
 	if cond.IsTrue() {
@@ -780,14 +886,10 @@ func (it *Interp) checkAssert(cond *Term, label string) {
 	}
 	if it.pos >= len(it.prefix) {
 		it.nAsserts++
-		it.nQueries++
-		var inputs []map[string]interface{}
-		r, _ := it.solver.CheckEval(c, c.Not(cond), true, []*Term{c.True}, func(_ []*big.Int, eval func([]string) []*big.Int) {
-			inputs = it.modelInputs(eval)
-		})
+		r, d := it.feasible(c.Not(cond))
 		switch r {
 		case "sat":
-			it.findings = append(it.findings, Finding{Kind: "assert", Label: label, Inputs: inputs, PathLen: len(it.decisions)})
+			it.findings = append(it.findings, Finding{Kind: "assert", Label: label, Inputs: it.inputsUnder(d, c.Not(cond)), PathLen: len(it.decisions)})
 		case "unknown":
 			it.findings = append(it.findings, Finding{Kind: "unknown", Label: label, PathLen: len(it.decisions)})
 		default:
@@ -797,9 +899,49 @@ func (it *Interp) checkAssert(cond *Term, label string) {
 	it.assume(cond)
 }
 
+func (it *Interp) hasBlobInput() bool {
+	for _, in := range it.inputs {
+		if in.Kind == "blob" {
+			return true
+		}
+	}
+	return false
+}
+
+// inputsUnder renders the inputs under M+delta; with uninterpreted blobs the values come from a
+// solver model of the complete path condition (plus extra).
+func (it *Interp) inputsUnder(delta map[string]uint64, extra *Term) []map[string]interface{} {
+	if it.hasBlobInput() || !it.modelOK {
+		var out []map[string]interface{}
+		it.check(extra, true, true, []*Term{it.ctx.True}, func(_ []*big.Int, ev func([]string) []*big.Int) {
+			out = it.modelInputs(ev)
+		})
+		return out
+	}
+	ev := func(q []string) []*big.Int {
+		out := make([]*big.Int, len(q))
+		for i, name := range q {
+			if v, ok := delta[name]; ok {
+				out[i] = new(big.Int).SetUint64(v)
+			} else {
+				out[i] = new(big.Int).SetUint64(it.model[name])
+			}
+		}
+		return out
+	}
+	return it.modelInputsRaw(ev)
+}
+
 // modelInputs renders the recorded inputs with the values of the current model (eval == nil:
 // a fresh check of the path condition is made).
 func (it *Interp) modelInputs(eval0 func([]string) []*big.Int) []map[string]interface{} {
+	if eval0 == nil {
+		return it.inputsUnder(nil, nil)
+	}
+	return it.modelInputsFiltered(eval0)
+}
+
+func (it *Interp) modelInputsFiltered(eval0 func([]string) []*big.Int) []map[string]interface{} {
 	// variables the solver has never seen are unconstrained: report 0 for them
 	eval := func(q []string) []*big.Int {
 		var ask []string
@@ -827,14 +969,10 @@ func (it *Interp) modelInputs(eval0 func([]string) []*big.Int) []map[string]inte
 		}
 		return out
 	}
-	if eval0 == nil {
-		var out []map[string]interface{}
-		it.nQueries++
-		it.solver.CheckEval(it.ctx, nil, true, []*Term{it.ctx.True}, func(_ []*big.Int, ev func([]string) []*big.Int) {
-			out = it.modelInputs(ev)
-		})
-		return out
-	}
+	return it.modelInputsRaw(eval)
+}
+
+func (it *Interp) modelInputsRaw(eval func([]string) []*big.Int) []map[string]interface{} {
 	var out []map[string]interface{}
 	for _, in := range it.inputs {
 		m := map[string]interface{}{"k": in.Kind}
